@@ -1718,9 +1718,9 @@ class ListProxy(list):
                 if self._parameter.names:
                     self._parameter.names = {
                         k: v for k, v in self._parameter.names.items()
-                        if v is object
+                        if v is not object
                     }
-            return
+            return object
         if self and not self._parameter.names:
             raise ValueError(
                 'Cannot pop an object from {clsname}.objects if '
@@ -1734,6 +1734,9 @@ class ListProxy(list):
 
     def remove(self, object):
         with self._trigger():
+            # names are filtered by identity: look up the stored object,
+            # which may be equal to but not identical with the argument
+            object = super().__getitem__(super().index(object))
             super().remove(object)
             self._parameter._objects.remove(object)
             if self._parameter.names:
